@@ -123,6 +123,28 @@ def k4_witness(base):
         shutil.rmtree(sim.base, ignore_errors=True)
 
 
+def marker_reindent_witness(base):
+    """fixed 5ee27e69 (regression of b88153d3): an agent writes lines, a person deletes one, the agent's next pre-edit
+    checkpoint records the deletion, the agent re-indents the following line — all three remaining lines stay the agent's"""
+    sim = Sim(base, "mk")
+    try:
+        sim.init({"x.txt": "x\n"})
+        sim.checkpoint_human(["n.txt"])
+        sim.write("n.txt", "one\ngone\ntwo\nthree\n")
+        sim.checkpoint_ai("s1", ["n.txt"], tool=TOOL)
+        sim.write("n.txt", "one\ntwo\nthree\n")
+        sim.checkpoint_human(["n.txt"])
+        sim.write("n.txt", "one\n    two\nthree\n")
+        sim.checkpoint_ai("s2", ["n.txt"], tool=TOOL)
+        sim.realgit("add", "-A")
+        sim.git("commit", "-q", "-m", "r0")
+        bl = sim.blame("n.txt")
+        h = session_hash(TOOL, "s1")
+        return bl != {1: h, 2: h, 3: h}, bl
+    finally:
+        shutil.rmtree(sim.base, ignore_errors=True)
+
+
 def run(ctx):
     n = 200 if ctx.tier == "quick" else 4000
     obligations, violations, known = [], [], []
@@ -153,8 +175,13 @@ def run(ctx):
                         (tie_bad[0]["model"][:200] + " vs " + str(tie_bad[0]["impl"])[:200]) if tie_bad else
                         ("" if ctx.model_ok else "model did not build")))
     still, got = k1_witness(ctx.scratch)
-    if still:
-        known.append("C01-K1 added line beginning with '++ ' is taken for a file header")
+    if still:      # repaired by b3d09776: a fixed entry suppresses nothing
+        violations.append(("regression of repaired defect C01-K1 (added line beginning with '++ ' taken for a file header)",
+                           {"kind": "fixed-witness", "got": _jsonable(got) if isinstance(got, dict) else str(got)}))
+    bad_mk, got_mk = marker_reindent_witness(ctx.scratch)
+    if bad_mk:
+        violations.append(("regression of repaired defect (5ee27e69): a re-indented agent line below a line a person deleted lost "
+                           "its attribution", {"kind": "fixed-witness", "blame": {str(k_): v for k_, v in (got_mk or {}).items()}}))
     still4, _ = k4_witness(ctx.scratch)
     if still4 or k2_seen:
         known.append("C01-K4 an AI line committed earlier is re-added by a later commit with a whitespace-only change "
